@@ -60,6 +60,7 @@ class P(Prop):
             inp["alias"] = rng.random() < 0.3
             inp["numeric_sts"] = rng.random() < 0.4
             inp["matrix_api"] = rng.random() < 0.35       # statuses and sharing modes through the [N x n] matrix setters
+            inp["int_lsm"] = rng.random() < 0.3           # 0/1 sharing modes as integer arrays
             for d, ci in zip(plant["comps"], inp["comps"]):
                 if pg.kind_of(d["cls"]) in ("PtiPto", "Storage") and not any(ci["pin"]):
                     ci["set"] = rng.choice(["input", "from_output"])
@@ -191,6 +192,10 @@ class P(Prop):
                 t.append("square status matrix (steps = components of a kind on a switchboard)")
         if inp.get("numeric_sts") and plant["breakers"]:
             t.append("breaker status as numeric 0/1 matrix")
+        if inp.get("int_lsm"):
+            t.append("0/1 sharing modes as integer arrays")
+        if any(d.get("bat", {}).get("pack_factor", 1) != 1 for d in plant["comps"] if d["cls"] == "battery_sys"):
+            t.append("battery pack power unlike its converter rating")
         if case.get("inp2") and "second" in obs:
             t.append("second-balance-after-status-change-only")
         if inp.get("sts") and any(inp["sts"][i] != inp["sts"][i - 1] for i in range(1, inp["n"])):
